@@ -98,14 +98,17 @@ func newEvent(eventType string, ts time.Time, payload interface{}) (Event, error
 	return Event{Type: eventType, TS: formatTime(ts), Data: data}, nil
 }
 
-func newShortID(existing map[string]*Task) (string, error) {
+func newShortID(existing map[string]*Task, pruned map[string]TombstoneInfo) (string, error) {
 	const maxAttempts = 64
 	for i := 0; i < maxAttempts; i++ {
 		id, err := shortID()
 		if err != nil {
 			return "", err
 		}
-		if _, exists := existing[id]; !exists {
+		// A pruned id stays taken: replay ignores every event that mentions it.
+		_, exists := existing[id]
+		_, wasPruned := pruned[id]
+		if !exists && !wasPruned {
 			return id, nil
 		}
 	}
